@@ -241,7 +241,20 @@ theorem rank_no_worse_table_list (Ub Ua : List UCand) (T : Key) (t : UCand) (Sx 
     hsb hsa hnb hna hcodeb hcodea ht hk hkeep hgain (Or.inl rfl)
   simpa [tableList, List.append_assoc] using h
 
-/-- **ranked no worse after a whole-input commit** (partial: under `Gain`, exact matches only).
+/- Full statement for the table style (FALSE, see `table_sentence_rank_counterexample`):
+
+     theorem rank_no_worse_table  — for every state `u`, every recognized whole-input candidate `sel` of a table-style
+       translation (a dictionary entry *or a composed sentence*), every answer `s`, `s'` of sentence composition before
+       and after:  findIdx sel.text (list after the commit) ≤ findIdx sel.text (list before).
+
+   It holds for dictionary entries (`rank_no_worse_table_list`: the committed entry is a stored record).  It fails for a
+   composed sentence: `TableTranslator::Memorize` without encoder stores `+1` on the elements and no phrase, so whether
+   the text comes back is up to sentence composition, and Poet may recompose another path of equal weight.  Excluded
+   from `rank_no_worse_partial` below (script style, where the sentence *is* stored as a phrase); recorded as the open
+   finding `C10:rank:worse:table-sentence-recomposed`. -/
+
+/-- **ranked no worse after a whole-input commit** (partial: under `Gain`, exact matches only; script style —
+a table-style composed sentence, of which no phrase is stored, is excluded: `table_sentence_rank_counterexample`)."
 From any state `u` of the user dictionary with distinct keys: the user commits a recognized candidate `sel`
 that covers the whole input (one segment, confirmed; script style), the transaction is closed, and the same
 input is looked up again.  `P`/`P'` are the present ticks of the two lookups, `Ub`/`Ua` the user candidates of
@@ -395,6 +408,26 @@ example :
     (scriptTop true none before [] false).findIdx (fun c => decide (c.text = [65])) = 1 ∧
     (scriptTop true none after1 [] false).findIdx (fun c => decide (c.text = [65])) ≤ 1 ∧
     (scriptTop true none after2 [] false).findIdx (fun c => decide (c.text = [65])) = 0 := by
+  decide
+
+open Examples in
+/-- **the full table-style ranking statement is false**: the 3-call witness
+`input dcccccc; select the sentence 天土方; type dcccccc` on the model.  The commit saves one commit entry whose
+elements 天 `dcc`, 土 `ccc`, 方 `c` each get `+1`; nothing is stored under the sentence's text.  Before, the list is
+`天土方 · 天 · 要 · 低 · 擦 · 萌` (the sentence at position 0).  After, sentence composition — an oracle of the model;
+the answers are the ones the real Poet gave — returns 天方土 (`dcc+c+ccc`, the same three entries, equal weight), the
+list is `天方土 · 天(user) · 低 · 擦 · 萌`, and the committed text is not in it: its position (= length 5) is later
+than before. -/
+theorem table_sentence_rank_counterexample :
+    (groupCommit sentenceSegs).map (·.elements) = [[eTian, eTu, eFang]] ∧
+    commitUpdates Style.table sentenceSegs = [(eTian.key, 1), (eTu.key, 1), (eFang.key, 1)] ∧
+    (afterCommit unitOps Style.table UD.empty sentenceSegs 0).keys.all (fun k => k.text ≠ [1, 2, 3]) = true ∧
+    (witnessList UD.empty.durable [1, 2, 3]).map (·.text) = [[1, 2, 3], [1], [4], [5], [6], [7]] ∧
+    (witnessList (afterCommit unitOps Style.table UD.empty sentenceSegs 0) [1, 3, 2]).map (·.text) =
+      [[1, 3, 2], [1], [5], [6], [7]] ∧
+    ¬ ((witnessList (afterCommit unitOps Style.table UD.empty sentenceSegs 0) [1, 3, 2]).findIdx
+          (fun c => decide (c.text = [1, 2, 3])) ≤
+       (witnessList UD.empty.durable [1, 2, 3]).findIdx (fun c => decide (c.text = [1, 2, 3]))) := by
   decide
 
 end Examples
